@@ -167,6 +167,12 @@ def run(pid, spec, tier):
         elif name == "bounded_quota_corpus":
             import bounded_standin
             out.append(bounded_standin.quota_corpus(pid))
+        elif name == "bounded_history_corpus":
+            import bounded_standin
+            out.append(bounded_standin.history_corpus(pid))
+        elif name == "bounded_derive_order":
+            import bounded_standin
+            out.append(bounded_standin.derive_order(pid))
         elif name == "bounded_principal_text":
             import bounded_standin
             out.append(bounded_standin.principal_text(pid))
